@@ -490,6 +490,7 @@ func propC08(c *Check) {
 	// recovery also has to find the right read timestamp: a max version computed too low after
 	// WAL replay hides acknowledged commits
 	ruleR11_3(c)
+	ruleR16_6(c) // every replayed entry is put back, whole
 }
 
 // ---- C09 ----
